@@ -183,8 +183,9 @@ def group_sx(gen, rule, domain, blockmap, blocklist):
             fx = export.expr(f)
         else:
             fx = "(li 0)"
+        ma = " ".join(str(int(mad.ma_index)) for mad in bd.ma_data)
         blocks.append(f"(block ({' '.join(bd.ttypes)}) ({' '.join(args)}) {len(fcs)} {fi} "
-                      f"{_b(bd.all_factors_piecewise)} {_b(bd.transposed)} {fx})")
+                      f"{_b(bd.all_factors_piecewise)} {_b(bd.transposed)} {fx} ({ma}))")
     return (f"(group {rule_sx(rule)} {_b(ex.integral_type in ufl.custom_integral_types)} {q(str(ex.entity_type))} "
             f"{_b(gen.ir.part == TensorPart.diagonal)} ({' '.join(str(int(n)) for n in ex.tensor_shape)}) "
             f"({' '.join(str(len(b)) for b in blockmap)}) ({' '.join(blocks)}))")
@@ -336,7 +337,7 @@ def capture():
 
     def partition_rec(integral, gen, symbol, F, mode, lookup, run):
         """Describe a `generate_partition` call (before), run it, complete the description (after)."""
-        rec = {"kind": "partition", "integral": integral, "symbol": symbol.name}
+        rec = {"kind": "partition", "integral": integral, "symbol": symbol.name, "Fobj": F}
         pre = {}
         try:
             for i, attr in F.nodes.items():
@@ -399,6 +400,17 @@ def capture():
             rec["state"] = state_sx(self)
         except export.ExportError as ex:
             rec["unexportable"] = str(ex)
+        try:  # the real (unscaled) blockmap tuples of every block of the group
+            bc = self.ir.expression.integrand[(domain, quadrature_rule)].get("block_contributions", {})
+            maps = []
+            for bd in blocklist:
+                bm = next((k for k, lst in bc.items() if any(bd is y for y in lst)), None)
+                maps.append(bm)
+            if all(m is not None for m in maps) and maps:
+                rec["blockmaps"] = "(" + " ".join(
+                    "(" + " ".join("(" + " ".join(str(int(i)) for i in r) + ")" for r in m) + ")" for m in maps) + ")"
+        except Exception as ex:  # noqa: BLE001
+            rec["blockmaps_error"] = f"{type(ex).__name__}: {ex}"
         try:  # numeric check of the tensor-product hypothesis on every tensor-factorised argument table
             tp = [tensor_table_error(mad.tabledata) + (mad.tabledata.name,) for bd in blocklist for mad in bd.ma_data
                   if mad.tabledata.tensor_factors is not None]
@@ -478,6 +490,17 @@ def capture():
 
     def gql(self, quadrature_rule, domain):
         rec = {"kind": "quadloop", "groups": [], "rule": rule_sx(quadrature_rule)}
+        try:  # what the IR attaches to the modified arguments (for the specification link)
+            integrand = self.ir.expression.integrand[(domain, quadrature_rule)]
+            rec["Fobj"] = integrand["factorization"]
+            rec["entity_type"] = str(self.ir.expression.entity_type)
+            tab = []
+            for p_, mt in enumerate(integrand["modified_arguments"]):
+                tr = rec["Fobj"].nodes[p_]["tr"]
+                tab.append(f"({p_} (arg {tref_sx(tr)} {_restr(mt.restriction)}) {int(tr.values.shape[-1])} {int(mt.terminal.number())})")
+            rec["argtab"] = "(" + " ".join(tab) + ")"
+        except Exception as ex:  # noqa: BLE001
+            rec["argtab_error"] = f"{type(ex).__name__}: {ex}"
         cur.append(rec)
         try:
             r = o_gql(self, quadrature_rule, domain)
@@ -591,6 +614,8 @@ def _branch(desc):
 
 def compare_record(chk, driver, rec, origin, stats, wf=True):
     """Run the model on one captured record and compare. Returns True iff it agrees."""
+    if rec["kind"] == "facts":
+        return True
     if "unexportable" in rec:
         stats["unexportable"] = stats.get("unexportable", 0) + 1
         chk.notes.setdefault("codegen_unexportable", []).append(f"{origin}: {rec['unexportable']}"[:160])
@@ -638,6 +663,24 @@ def compare_record(chk, driver, rec, origin, stats, wf=True):
                     if not okt:
                         bad("tensor-factorised table is not the tensor product of its factor tables (hypothesis TPTables)",
                             f"max error {err}", name, req[:2000])
+            if wf and rec.get("blockmaps"):
+                bmr = driver.ask(f"(blockmap_check {rec['desc']} {rec['blockmaps']})")
+                _inc(stats, "blockmaps", "arithmetic_progression" if bmr == ["ok", "true"] else "other")
+                if bmr != ["ok", "true"] and sexp.loads(rec["desc"])[4] != "true":
+                    bad("real blockmap is not offset + block_size*range(ndofs) of the block's table references",
+                        bmr, rec["blockmaps"], req[:3000])
+            if wf:
+                j_ = "(" + " ".join(real[1]) + ")"
+                for sd in (chk.seed if hasattr(chk, "seed") else 1, 7919):
+                    ex_ = driver.ask(f"(block_exec {rec['desc']} {rec['state']} {j_} {int(sd) % 100000})")
+                    if ex_[0] == "skip":
+                        _inc(stats, "exec_vs_spec", "no-closed-form")
+                        break
+                    _inc(stats, "exec_vs_spec", f"{ex_[2]}:{ex_[1]}" if ex_[0] == "ok" else "driver-error")
+                    if ex_[0] != "ok" or ex_[1] != "equal":
+                        bad("exact execution (Rat) of the real block statements differs from the closed-form specification",
+                            ex_[:5], "real statements", req[:3000])
+                        break
             if wf:
                 w = driver.ask(f"(block_wf {rec['desc']} {rec['state']})")
                 flags = {k: v for k, v in w[1:]} if w[0] == "ok" else {}
@@ -753,6 +796,55 @@ def check_groups_fold(chk, driver, recs, origin, stats):
                          {"origin": origin, "input": req[:4000], "model": flags, "impl": "generated by FFCx"})
 
 
+def check_spec_links(chk, driver, recs, origin, stats):
+    """The decidable links of `kernel_meets_spec_linked` / `partition_values_partial` on every real rank-2 rule:
+    Lean factorises the exported integrand graph S; the blocks' (ma_indices, factor_index) must be the entries of
+    the target's dict, their argument tables the tables the IR attaches to the argument nodes of F, the real F the
+    model's F, and every node of the partitions the translation of its node of F."""
+    from . import ir_checks
+    facts = next((r["facts"] for r in recs if r["kind"] == "facts"), [])
+    for rec in recs:
+        if rec["kind"] != "quadloop" or "Fobj" not in rec or "argtab" not in rec or not rec["groups"]:
+            continue
+        gs = [recs[i] for i in rec["groups"]]
+        if any("unexportable" in g or g["real"][0] != "ok" for g in gs):
+            continue
+        f = next((x for x in facts if x["F"] is rec["Fobj"]), None)
+        if f is None:
+            _inc(stats, "spec_link", "no-factorisation-record")
+            continue
+        if f["rank"] != 2:
+            _inc(stats, "spec_link", f"rank{f['rank']}:not-covered")
+            continue
+        S, F = f["S"], f["F"]
+        ex = ir_checks.GraphExport(S)
+        targets = [(i, list(v["component"])) for i, v in S.nodes.items() if v.get("target", False)]
+        try:
+            gS = ex.graph(S, targets)
+            gF = ex.graph(F, [])
+        except Exception as e:  # noqa: BLE001
+            _inc(stats, "spec_link", f"unexportable:{type(e).__name__}")
+            continue
+        parts = [r for r in recs if r["kind"] == "partition" and r.get("Fobj") is F and "nodes" in r]
+        ptxt = "(" + " ".join("(" + " ".join(r["nodes"]) + ")" for r in parts) + ")"
+        req = (f"(spec_link {gS} 2 {gF} ({' '.join(g['desc'] for g in gs)}) {gs[0]['state']} {rec['argtab']} "
+               f"{q(rec['entity_type'])} {ptxt})")
+        rep = driver.ask(req)
+        chk.case(kind="codegen_spec_link", key=None)
+        if rep[0] != "ok":
+            chk.disagree("spec_link: driver error", {"origin": origin, "input": req[:3000], "model": rep, "impl": "ok"})
+            continue
+        flags = {k: v for k, v in rep[1:]}
+        full = all(v == "true" for v in flags.values())
+        _inc(stats, "spec_link", "all-links-hold" if full else "some-link-fails")
+        for k, v in flags.items():
+            if v != "true":
+                _inc(stats, "spec_link", f"{k}=false")
+        stats.setdefault("spec_link_failures", [])
+        if not full and len(stats["spec_link_failures"]) < 6:
+            stats["spec_link_failures"].append(f"{origin}: {flags}")
+
+
 # ================================================================================ real corpus
 def extra_entries():
     """Real forms reaching branches the shared corpus does not: diagonal part, sum factorisation."""
@@ -800,9 +892,11 @@ def extra_entries():
 
 
 def capture_entry(entry):
+    from . import ir_checks
     opts = pipeline.default_options(**entry.options)
     err = None
-    with capture() as recs:
+    with capture() as recs, ir_checks.capture_factorizations() as facts:
+        recs.append({"kind": "facts", "facts": facts})
         try:
             _, ir = pipeline.compute(entry.build(), opts)
             pipeline.kernels(ir, opts)
@@ -823,6 +917,7 @@ def check_blocks(chk, driver, entries):
         for k, rec in enumerate(recs):
             compare_record(chk, driver, rec, f"{entry.name}:{k}", stats)
         check_groups_fold(chk, driver, recs, entry.name, stats)
+        check_spec_links(chk, driver, recs, entry.name, stats)
         stats["real_blocks"] = stats.get("real_blocks", 0) + sum(1 for r in recs if r["kind"] in ("group", "eblock"))
     _finish_stats(stats)
     return stats
@@ -831,7 +926,7 @@ def check_blocks(chk, driver, entries):
 def _finish_stats(stats):
     stats.pop("synthetic_calls", None)
     for k in ("branches", "side_conditions", "loop_side_conditions", "partition_ssa", "terminal_handlers", "tensor_tables",
-              "synthetic_branches"):
+              "blockmaps", "exec_vs_spec", "spec_link", "diag_pairing", "tensor_rules", "synthetic_branches"):
         if k in stats:
             stats[k] = dict(sorted(stats[k].items()))
 
@@ -1157,7 +1252,7 @@ def main(argv=None):
               f"synthetic: {st.get('synthetic')}  cases: {chk.cases}  distinct: {len(chk.keys)}  ({time.time() - t0:.1f} s)")
         print(f"partitions: {st.get('partitions')}  intermediates: {st.get('partition_intermediates')}")
         for k in ("branches", "side_conditions", "loop_side_conditions", "partition_ssa", "terminal_handlers", "tensor_tables",
-                  "synthetic_branches"):
+                  "blockmaps", "exec_vs_spec", "spec_link", "diag_pairing", "tensor_rules", "synthetic_branches"):
             print(f"-- {k}")
             for b, c in (st.get(k) or {}).items():
                 print(f"   {c:5d}  {b}")
